@@ -68,7 +68,10 @@ impl<'a> Multiboot2Header<'a> {
             return Err(LoadError::Memory(MemoryError::WrongAlignment));
         }
 
-        let mut windows = buffer[0..8192].windows(4);
+        // The header is searched for in the first 8192 bytes only. The buffer
+        // may be shorter than that.
+        let search_len = buffer.len().min(8192);
+        let mut windows = buffer[0..search_len].windows(4);
         let magic_index = match windows.position(|vals| {
             u32::from_le_bytes(vals.try_into().unwrap()) // yes, there's 4 bytes here
             == MAGIC
@@ -82,28 +85,19 @@ impl<'a> Multiboot2Header<'a> {
             }
             None => return Ok(None),
         };
-        // skip over rest of magic
-        windows.next();
-        windows.next();
-        windows.next();
-        // arch
-        windows.next();
-        windows.next();
-        windows.next();
-        windows.next();
-        let header_length: usize = u32::from_le_bytes(
-            windows
-                .next()
-                .ok_or(LoadError::Memory(MemoryError::MissingPadding))?
-                .try_into()
-                .unwrap(), // 4 bytes are a u32
-        )
-        .try_into()
-        .unwrap();
-        Ok(Some((
-            &buffer[magic_index..magic_index + header_length],
-            magic_index as u32,
-        )))
+        // The length follows the magic and the architecture.
+        let header_length: usize = buffer
+            .get(magic_index + 8..magic_index + 12)
+            .map(|bytes| u32::from_le_bytes(bytes.try_into().unwrap())) // 4 bytes are a u32
+            .ok_or(LoadError::Memory(MemoryError::MissingPadding))?
+            .try_into()
+            .unwrap();
+        // The header must lie inside the buffer.
+        let header = magic_index
+            .checked_add(header_length)
+            .and_then(|end| buffer.get(magic_index..end))
+            .ok_or(LoadError::Memory(MemoryError::InvalidReportedTotalSize))?;
+        Ok(Some((header, magic_index as u32)))
     }
 
     /// Returns a [`TagIter`].
